@@ -417,7 +417,7 @@ func checkIDAfterEveryRead(r *Report, s *Sem, rule string) {
 				return
 			}
 			g := rd.Call.StaticCallee()
-			if g == nil || s.recvKind(g) != "server" || g == fn {
+			if g == nil || (s.recvKind(g) != "server" && !containsFn(a.sessionReaders, g)) || g == fn {
 				return
 			}
 			res := g.Signature.Results()
@@ -448,7 +448,7 @@ func checkIDAfterEveryRead(r *Report, s *Sem, rule string) {
 						return false
 					}
 					// a later read supersedes this one
-					if g2 := c.Call.StaticCallee(); g2 != nil && s.recvKind(g2) == "server" {
+					if g2 := c.Call.StaticCallee(); g2 != nil && (s.recvKind(g2) == "server" || containsFn(a.sessionReaders, g2)) {
 						r2 := g2.Signature.Results()
 						if r2.Len() == 2 && typeIs(r2.At(0).Type(), s.sessionT) && readsPeer(s, g2, 0) {
 							return true
@@ -521,6 +521,9 @@ func readsPeer(s *Sem, g *ssa.Function, d int) bool {
 	a := s.anchors()
 	if d > 3 || g == nil || len(g.Blocks) == 0 {
 		return false
+	}
+	if containsFn(a.sessionReaders, g) {
+		return true
 	}
 	ok, n := true, 0
 	for _, rl := range returnLeaves(g, 0) {
